@@ -113,14 +113,17 @@ def run(tier, seed, report):
             elif scenario == "empty-dir":
                 os.makedirs(root)
             # reopening properties
-            kind = rng.choices(["same", "depth", "width", "alg", "ns", "missing", "none", "extra", "multi"],
-                               [4, 2, 2, 2, 2, 1, 1, 0.7, 1])[0]
+            kind = rng.choices(["same", "depth", "width", "alg", "ns", "missing", "none", "extra", "multi", "swap"],
+                               [4, 2, 2, 2, 2, 1, 1, 0.7, 1, 1.5])[0]
             dv = rng.choice([d0, str(d0), " %d" % d0])
             wv = rng.choice([w0, str(w0)])
             av, nv = a0, n0
             present = {"store_path": True, "store_depth": True, "store_width": True, "store_algorithm": True,
                        "store_metadata_namespace": True}
             extra = {}
+            if kind == "swap":
+                # the right values under the wrong keys
+                dv, wv = rng.choice([(w0, d0), (str(w0), str(d0)), (w0, str(d0))])
             if kind in ("depth", "multi"):
                 dv = rng.choice(int_variants(rng, d0))
             if kind in ("width", "multi"):
